@@ -40,7 +40,10 @@ pub fn start_query_timer(milliseconds: u64) -> ThreadTimer {
                     }
                     stop_query();
                     #[cfg(suiron_verif)]
-                    crate::verif_hooks::tlog("fire_end");
+                    {
+                        crate::verif_hooks::tlog("fire_end");
+                        crate::verif_hooks::after_timer_callback();
+                    }
                 }).unwrap();
     return timer;
 } // start_query_timer()
